@@ -31,6 +31,11 @@ func build(tier string) []*explore.Scenario {
 			scs = append(scs, hlib.WriteScenario(hlib.WParams{Cfg: cfg, Wrap: wrap, Writers: hlib.Mixes(2, 2)[1], Bound: bound, Cache: true}, hlib.CheckOrder))
 		}
 	}
+	// contexts that carry a deadline: the synchronous Ctx entry points arm and clear the transport's write
+	// deadline (the mock cuts short any write that runs under a deadline armed by another goroutine)
+	for _, mix := range [][][]hlib.EP{{{hlib.CtxWrite1, hlib.Write1}, {hlib.CtxWritev, hlib.CtxWrite1}}, {{hlib.Writev, hlib.CtxWritev}, {hlib.CtxWrite1}}} {
+		scs = append(scs, hlib.WriteScenario(hlib.WParams{Cfg: hlib.ChanCfg{}, Writers: mix, Deadline: true, Bound: bound, Cache: true, Tag: "deadline-contexts"}, hlib.CheckOrder))
+	}
 	// three writers, one call each
 	b3 := 2
 	if tier == "thorough" {
